@@ -92,3 +92,9 @@ CLAIMED.update({
    note="trusted: rustc MIR; term evaluator"),
 })
 NA.pop("C12", None)
+CLAIMED.update({
+ "C02": dict(level="other", design="§9.5 C02", technique="static analysis: iterator-adaptor types from rustc MIR + template rules for the reduce code (pop order, argument order) and the action function's parameter list",
+   text="Decides only the clause that rustc's typing does not force: children reach the action in left-to-right order (reverse pop with enumerate index, forward argument list, patterns zipped with types in order, middle component of the triple bound). Which action runs, default actions, bindings and exactly-once post-order evaluation are NOT decided.",
+   note="trusted: rustc MIR iterator types; syn parse; rustc type-checks generated calls"),
+})
+NA.pop("C02", None)
